@@ -48,6 +48,17 @@ Theorem C16_every_exit_path_of_Open_handles_the_lock :
 Proof. vm_compute. repeat split; reflexivity || (repeat constructor). Qed.
 Print Assumptions C16_every_exit_path_of_Open_handles_the_lock.
 
+(* The model's "Close releases the lock" is what the source does on EVERY exit path of DB.Close,
+   also on those that report an I/O error of a data file: on each return statement extracted from the
+   current source the release is guaranteed (a deferred function registered earlier calls
+   fileLock.Unlock, or an explicit Unlock precedes the return in an enclosing block).  The check
+   additionally makes a Close fail for real (the descriptor of a data file is replaced, so its fsync
+   fails) and lets another process open the directory afterwards. *)
+Theorem C16_every_exit_path_of_Close_releases_the_lock :
+  forallb ce_released close_exits = true /\ (0 < length close_exits)%nat.
+Proof. vm_compute. split; [reflexivity|repeat constructor]. Qed.
+Print Assumptions C16_every_exit_path_of_Close_releases_the_lock.
+
 (* Non-vacuity: two directories, a rejected second Open, a failed Open, reopen after Close. *)
 Example c16_run :
   snd (lrun [] [LOpen 1 0 false; LOpen 2 0 false; LOpen 3 1 true; LOpen 4 1 false; LClose 1; LOpen 5 0 false; LClose 9])
